@@ -3,6 +3,7 @@ package bounded
 import (
 	"encoding/json"
 	"fmt"
+	"math"
 	"sort"
 	"strings"
 	"testing"
@@ -88,14 +89,14 @@ func TestC04(t *testing.T) {
 	}
 	kinds := []string{"JOIN", "LEFT JOIN", "RIGHT JOIN", "HASH_JOIN", "LEFT HASH_JOIN", "RIGHT HASH_JOIN", "STRAIGHT_JOIN",
 		"PARALLEL JOIN", "PARALLEL LEFT JOIN", "PARALLEL RIGHT JOIN", "PARALLEL HASH_JOIN", "PARALLEL LEFT HASH_JOIN", "PARALLEL RIGHT HASH_JOIN", "PARALLEL STRAIGHT_JOIN"}
-	doms := [][]any{{1.0, 2.0}, {"a-", "a", "b", "-b"}, {uint32(1), 1.0, int64(2), 2.0}}
+	doms := [][]any{{1.0, 2.0}, {"a-", "a", "b", "-b"}, {uint32(1), 1.0, int64(2), 2.0}, {math.Copysign(0, -1), 0.0, 1.0}}
 	n := 2
 	repeatParallel := 1
 	if tier() == "thorough" {
 		repeatParallel = 5
 	}
 	r := &result{Property: "C04", Name: "joins-equal-the-textbook-multiset",
-		Bound: fmt.Sprintf("all pairs of tables of 0..%d rows, two columns each, over the number domain %v (every pair) and the string domain %v (every pair of tables with <= 1 row; the values are chosen so that two different key pairs print alike when simply run together) and a domain of mixed Go numeric types %v (tables with <= 1 row); %d ON conditions (=, !=, <, >=, <=, AND, OR, either orientation, a column used twice, names that sort differently on the two sides); %d join kinds x strategies (PARALLEL ones run %d time(s)); result compared as a multiset with a nested-loop reference; aliases x/y, o/oi (one a prefix of the other) and a/aa (which read the same in either order when run together) alternate", n, doms[0], doms[1], doms[2], len(conds), len(kinds), repeatParallel)}
+		Bound: fmt.Sprintf("all pairs of tables of 0..%d rows, two columns each, over the number domain %v (every pair) and the string domain %v (every pair of tables with <= 1 row; the values are chosen so that two different key pairs print alike when simply run together) and a domain of mixed Go numeric types %v (tables with <= 1 row) and the two zeros %v (-0 = 0 holds; tables with <= 1 row); %d ON conditions (=, !=, <, >=, <=, AND, OR, either orientation, a column used twice, names that sort differently on the two sides); %d join kinds x strategies (PARALLEL ones run %d time(s)); result compared as a multiset with a nested-loop reference; aliases x/y, o/oi (one a prefix of the other) and a/aa (which read the same in either order when run together) alternate", n, doms[0], doms[1], doms[2], doms[3], len(conds), len(kinds), repeatParallel)}
 	for di, dom := range doms {
 		ls := c04Tables([2]string{"a", "z"}, dom, n)
 		rs := c04Tables([2]string{"m", "b"}, dom, n)
